@@ -22,6 +22,7 @@ CONSTANTS
   KeepRights = {FALSE}
   Scrollbars <- MCNoScrollbar
   Borders = {FALSE}
+  Tabstops = {8}
   Patterns <- MCPatternsNone
   Acts = {"edit", "move", "toggle", "list", "resize", "vis"}
 INIT Init
